@@ -29,6 +29,25 @@ if INPUTS['kind'] == 'guard':
             raised = True
         if raised != should:
             bad = 'year %d: ValueError raised=%r' % (y, raised)
+elif INPUTS['kind'] == 'interpol':
+    # through the public routine: a body with the solver's tabulated right ascensions, constant declination; at the returned
+    # transit time it must be on the meridian (hour angle 0 mod 360 to 0.005 degree)
+    from pymeeus.Angle import Angle
+    from pymeeus.Coordinates import times_rise_transit_set
+    Y1, d1, d2 = INPUTS['Y1'], INPUTS['d1'], INPUTS['d2']
+    for (y1, a, b) in ((Y1, d1, d2), (359.0, 0.8, 0.8), (359.7, 0.8, 0.8), (0.3, -0.8, -0.8), (358.9, 1.2, 1.0)):
+        al = [Angle(y1 % 360.0), Angle((y1 + a) % 360.0), Angle((y1 + a + b) % 360.0)]
+        de = Angle(10.0)
+        lon, lat, h0, th0, dt = Angle(0.0), Angle(40.0), Angle(-0.5667), Angle(100.0), 69.0
+        r = times_rise_transit_set(lon, lat, al[0], de, al[1], de, al[2], de, h0, dt, th0)
+        if r[1] is None:
+            continue
+        m0 = r[1] / 24.0
+        nn = m0 + dt / 86400.0
+        alpha = (y1 + a) + nn * (a + b + nn * (b - a)) / 2.0
+        H = (100.0 + 360.985647 * m0 - 0.0 - alpha + 180.0) % 360.0 - 180.0
+        if abs(H) > 0.005:
+            bad = 'right ascensions %r: at the returned transit (%.4f h) the hour angle is %r degrees' % ([float(x) for x in al], r[1], H); break
 elif INPUTS['kind'] == 'eot':
     # every day of a few years on the real library (no stubs): within 25 minutes of zero, less than 45 s change per day
     for y in (1800, 1999, 2000, 2024, 2199):
@@ -287,17 +306,60 @@ def task_eot(_):
     return t
 
 
+def task_interpol(_):
+    """times_rise_transit_set.interpol (the nested helper, cut from the current AST) on three tabulated angles of a body
+    moving at most 1.5 degrees per day, wrapped into [0, 360): the interpolated angle equals Meeus 3.3 on the UNWRAPPED
+    values modulo 360 -- in particular when the right ascension passes 360 -> 0 between two of the three days"""
+    from symx import slicer
+    t = harness.Task('interpol')
+    Angle = loader.mod('Angle').Angle
+    try:
+        interpol, _src = slicer.nested_func('Coordinates', 'times_rise_transit_set.interpol')
+    except core.EngineError as ex:
+        t.ob('times_rise_transit_set.interpol found', 'unknown', 0, str(ex))
+        return t
+    Y1, d1, d2, n = Num.real_var('Y1'), Num.real_var('d1'), Num.real_var('d2'), Num.real_var('n')
+    k2, k3 = z3.Int('k2'), z3.Int('k3')
+    Y2, Y3 = Num.real_var('Y2'), Num.real_var('Y3')
+    lim = z3.RealVal('1.5')
+    pre = [Y1.e >= 0, Y1.e < 360, Y2.e >= 0, Y2.e < 360, Y3.e >= 0, Y3.e < 360, d1.e >= -lim, d1.e <= lim, d2.e >= -lim, d2.e <= lim,
+           Y2.e == Y1.e + d1.e - 360 * z3.ToReal(k2), Y3.e == Y2.e + d2.e - 360 * z3.ToReal(k3), n.e >= -1, n.e <= 1]
+
+    def run():
+        r = interpol(n, Angle(Y1), Angle(Y2), Angle(Y3))
+        return r._deg if isinstance(r, Angle) else r
+    ctx, paths = core.explore(run, pre, check_div0=False, timeout_ms=20000, max_paths=400, max_seconds=300)
+    t.absorb_ctx(ctx, paths)
+    bd = 'three tabulated angles in [0, 360) whose unwrapped daily differences are within +-1.5 degrees; interpolating factor in [-1, 1]; real arithmetic'
+    want = Y2.e + n.e * (d1.e + d2.e + n.e * (d2.e - d1.e)) / 2
+    kk = z3.Int('kk')
+    inp = lambda mo: {'kind': 'interpol', 'Y1': float(harness.meval(mo, Y1)), 'd1': float(harness.meval(mo, d1)), 'd2': float(harness.meval(mo, d2))}
+    for i, p in enumerate(paths):
+        tag = '@p%d' % i
+        t.reach += 1
+        if p.kind != 'ok':
+            t.ob('interpol total' + tag, 'sat' if p.kind == 'exc' else 'unwind', 0, bd)
+            if p.kind == 'exc':
+                t.cand('C14.interpol', {'kind': 'interpol', 'Y1': 359.0, 'd1': 0.8, 'd2': 0.8}, 'exception %r' % (p.exc,))
+            continue
+        got = core.lift(p.val).re()
+        diff = got - want
+        t.decide(ctx, p, 'interpolated angle = Meeus 3.3 on the unwrapped values (mod 360)' + tag,
+                 z3.And(diff != 0, diff != 360, diff != -360, diff != 720, diff != -720), 'C14.interpol', inp, 'interpolation across the 360 -> 0 wrap', bd, timeout_ms=60000, retry=False)
+    return t
+
+
 def dispatch(job):
     k, a = job
-    return {'loop': task_loop, 'seeds': task_seeds, 'eot': task_eot}[k](a)
+    return {'loop': task_loop, 'seeds': task_seeds, 'eot': task_eot, 'interpol': task_interpol}[k](a)
 
 
 def main(tier):
     loader.install()
     chk = harness.Check(PID, tier)
-    chk.replays = {'C14.guard': REPLAY, 'C14.loop': REPLAY, 'C14.eot': REPLAY}
-    chk.functions = ['Sun.get_equinox_solstice', 'Sun.equation_of_time (statements after the mean longitude)']
-    chk.run(dispatch, [('loop', tg) for tg in TARGETS] + [('seeds', 0), ('eot', 0)], 'seasons: guard, loop exit, start instants')
+    chk.replays = {'C14.guard': REPLAY, 'C14.loop': REPLAY, 'C14.eot': REPLAY, 'C14.interpol': REPLAY}
+    chk.functions = ['Sun.get_equinox_solstice', 'Sun.equation_of_time (statements after the mean longitude)', 'Coordinates.times_rise_transit_set.interpol (nested helper)']
+    chk.run(dispatch, [('loop', tg) for tg in TARGETS] + [('seeds', 0), ('eot', 0), ('interpol', 0)], 'seasons: guard, loop exit, start instants')
     chk.bounds = {'year': 'every integer', 'loop': 'exits after 1..%d evaluations of the position theory (longer runs: the same body; counted as unwinding misses)' % UNWIND}
     chk.stubs = ['Sun.apparent_geocentric_position -> uninterpreted theory: a fresh symbolic longitude per call, the epoch asked for is recorded',
                  'equation_of_time: apparent position, obliquity, ecliptical2equatorial, nutation -> arbitrary values (real Angle class kept)', 'Angle inside Sun (seasons only) -> plain value stand-in; sin -> box in [-1, 1] keyed by its argument; Epoch(number) -> stores the JDE (C02)']
